@@ -1024,6 +1024,43 @@ fn ty_to_expr(t: &Ty, adts: &[AdtDef], module: usize, accessors: &BTreeMap<usize
     }
 }
 
+/// Spell some `Int`s of a type expression through the module's alias `Num<m> = Int`
+/// (transparent for every type shown; the alias is met INSIDE another definition, with other
+/// names of the defining module before and after it).
+fn alias_some_ints(te: &mut TypeExpr, alias: &str, r: &mut Rng) -> bool {
+    match te {
+        TypeExpr::Named { module: None, name, args } if args.is_empty() && name.text == "Int" => {
+            if r.chance(1, 2) {
+                *name = plain(alias);
+                return true;
+            }
+            false
+        }
+        TypeExpr::Named { args, .. } => {
+            let mut any = false;
+            for a in args.iter_mut() {
+                any |= alias_some_ints(a, alias, r);
+            }
+            any
+        }
+        TypeExpr::Tuple(ts) => {
+            let mut any = false;
+            for a in ts.iter_mut() {
+                any |= alias_some_ints(a, alias, r);
+            }
+            any
+        }
+        TypeExpr::Fn(ps, ret) => {
+            let mut any = false;
+            for a in ps.iter_mut() {
+                any |= alias_some_ints(a, alias, r);
+            }
+            any | alias_some_ints(ret, alias, r)
+        }
+        _ => false,
+    }
+}
+
 /// Polymorphic helpers with hand-written signatures (compared up to renaming).
 pub const POLY_LIB: &[(&str, &str, &str)] = &[
     ("poly_id", "fn poly_id($1) { $1 }", "fn(a) -> a"),
@@ -1204,23 +1241,29 @@ pub fn generate(r: &mut Rng) -> TypedWorkspace {
         }
         // ADT items of this module
         let mut body_items: Vec<Item> = Vec::new();
+        let num_alias = format!("Num{mi}");
+        body_items.push(Item { attrs: vec![], doc: vec![], kind: ItemKind::Alias(Alias { public: true, name: plain(&num_alias), params: vec![], ty: TypeExpr::Named { module: None, name: plain("Int"), args: vec![] } }) });
         for a in adts.iter().filter(|a| a.module == mi) {
-            let variants = a
-                .variants
-                .iter()
-                .map(|v| Variant {
-                    name: plain(&v.name),
-                    fields: v.fields.iter().map(|f| Field { label: f.label.as_ref().map(|l| plain(l)), ty: ty_to_expr(&f.ty, &adts, mi, &accessors, None), decl: None }).collect(),
-                    has_parens: !v.fields.is_empty(),
-                    doc: None,
-                })
-                .collect();
+            let mut variants = Vec::new();
+            for v in &a.variants {
+                let mut fields = Vec::new();
+                for f in &v.fields {
+                    let mut ty = ty_to_expr(&f.ty, &adts, mi, &accessors, None);
+                    if alias_some_ints(&mut ty, &num_alias, r) && !features.contains(&"alias-inside-constructor-fields") {
+                        features.push("alias-inside-constructor-fields");
+                    }
+                    fields.push(Field { label: f.label.as_ref().map(|l| plain(l)), ty, decl: None });
+                }
+                variants.push(Variant { name: plain(&v.name), fields, has_parens: !v.fields.is_empty(), doc: None });
+            }
             body_items.push(Item { attrs: vec![], doc: vec![], kind: ItemKind::Adt(Adt { public: true, opaque: false, name: plain(&a.name), params: a.params.clone(), variants, has_body: true }) });
         }
         // an alias used in annotations of this module
         let alias_ty = Ty::List(Box::new(Ty::Tuple(vec![Ty::Int, Ty::Str])));
         let alias_name = format!("Rows{mi}");
-        body_items.push(Item { attrs: vec![], doc: vec![], kind: ItemKind::Alias(Alias { public: true, name: plain(&alias_name), params: vec![], ty: ty_to_expr(&alias_ty, &adts, mi, &accessors, None) }) });
+        let mut rows_body = ty_to_expr(&alias_ty, &adts, mi, &accessors, None);
+        alias_some_ints(&mut rows_body, &num_alias, r);
+        body_items.push(Item { attrs: vec![], doc: vec![], kind: ItemKind::Alias(Alias { public: true, name: plain(&alias_name), params: vec![], ty: rows_body }) });
         // a parametrised alias whose parameters appear in swapped order in its body
         let galias_ty = Ty::List(Box::new(Ty::Tuple(vec![Ty::Var("b".into()), Ty::Var("a".into())])));
         body_items.push(Item { attrs: vec![], doc: vec![], kind: ItemKind::Alias(Alias { public: true, name: plain(&format!("Pairs{mi}")), params: vec!["a".into(), "b".into()], ty: ty_to_expr(&galias_ty, &adts, mi, &accessors, None) }) });
